@@ -1050,7 +1050,7 @@ func callBuiltin(caller *frame, callpos token.Pos, fn *ssa.Builtin, args []value
 			params := fn.Type().(*types.Signature).Params()
 			src = conv(i, params.At(0).Type(), params.At(1).Type(), src)
 		}
-		return copy(args[0].([]value), src.([]value))
+		return copy(args[0].([]value), copyVals(src.([]value)))
 
 	case "close": // close(chan T)
 		panic(pathAbort{"unsupported", "close(chan)"})
@@ -1139,6 +1139,9 @@ func (i *interpreter) appendValues(s, add []value, elt types.Type) []value {
 	if len(add) == 0 {
 		return s
 	}
+	// element cells are addressable: struct / array values must be copied,
+	// not shared with the cells of the source slice (Go value semantics)
+	add = copyVals(add)
 	need := len(s) + len(add)
 	if need <= cap(s) {
 		r := s[:need]
@@ -1156,7 +1159,7 @@ func (i *interpreter) appendValues(s, add []value, elt types.Type) []value {
 		newcap = growCap(cap(s), need, int(esz))
 	}
 	r := make([]value, need, newcap)
-	copy(r, s)
+	copy(r, copyVals(s))
 	copy(r[len(s):], add)
 	if elt != nil {
 		rest := r[need:newcap]
@@ -1651,4 +1654,41 @@ func fandbits[F floaty](x, y F) F {
 		*(*uint64)(unsafe.Pointer(&x)) &= *(*uint64)(unsafe.Pointer(&y))
 	}
 	return x
+}
+
+// copyVal returns a copy of v that shares no struct / array storage with it.
+func copyVal(v value) value {
+	switch x := v.(type) {
+	case structure:
+		r := make(structure, len(x))
+		for k := range x {
+			r[k] = copyVal(x[k])
+		}
+		return r
+	case array:
+		r := make(array, len(x))
+		for k := range x {
+			r[k] = copyVal(x[k])
+		}
+		return r
+	}
+	return v
+}
+
+func copyVals(vs []value) []value {
+	needs := false
+	for _, v := range vs {
+		switch v.(type) {
+		case structure, array:
+			needs = true
+		}
+	}
+	if !needs {
+		return vs
+	}
+	r := make([]value, len(vs))
+	for k, v := range vs {
+		r[k] = copyVal(v)
+	}
+	return r
 }
